@@ -39,12 +39,12 @@ func TestMain(m *testing.M) { vkit.Main(m, "C08") }
 // case description (JSON-serialisable replay unit)
 
 type Op struct {
-	Kind   string `json:"kind"`             // connect hb close tick
+	Kind   string `json:"kind"`             // connect hb hbold close tick sweep
 	Client int    `json:"client,omitempty"` // connect, hb
 	Node   int    `json:"node,omitempty"`   // connect
 	Mode   string `json:"mode,omitempty"`   // connect: good | bad-secret | tunnel-type | no-handshake
-	Conn   int    `json:"conn,omitempty"`   // close: ordinal of the connect op whose connection is closed (by its owning node)
-	HB     []int  `json:"hb,omitempty"`     // tick: clients that send a heartbeat on their newest connection after the pause
+	Conn   int    `json:"conn,omitempty"`   // close / hbold: ordinal of the connect op whose connection is closed (by its owning node) / heartbeats late
+	HB     []int  `json:"hb,omitempty"`     // tick: clients that send a heartbeat on their newest connection after the pause; sweep: clients kept active
 	FF     bool   `json:"ff,omitempty"`     // tick: the Redis server's clock advances too (false: store-side expiry lags)
 }
 
@@ -76,6 +76,7 @@ func genCase(t *rapid.T) Case {
 	short := c.TTLms == shortTTLms
 	type gconn struct {
 		client int
+		node   int
 		open   bool
 		good   bool
 	}
@@ -84,7 +85,7 @@ func genCase(t *rapid.T) Case {
 	newest := [nClients]int{-1, -1}
 	n := rapid.IntRange(4, 16).Draw(t, "nops")
 	ticks := 0
-	kinds := []string{"connect", "connect", "connect", "connect", "hb", "close", "close", "close", "tick", "tick", "tick", "streak"}
+	kinds := []string{"connect", "connect", "connect", "connect", "hb", "hbold", "close", "close", "close", "tick", "tick", "tick", "streak", "sweep"}
 	streaks := 0
 	for i := 0; i < n; i++ {
 		k := rapid.SampledFrom(kinds).Draw(t, "kind")
@@ -94,13 +95,19 @@ func genCase(t *rapid.T) Case {
 		if k == "tick" && (!short || ticks >= 5) {
 			k = "connect"
 		}
-		var openIdx []int
+		var openIdx, superseded []int
 		for j, g := range conns {
 			if g.open {
 				openIdx = append(openIdx, j)
+				if g.good && newest[g.client] != j {
+					superseded = append(superseded, j)
+				}
 			}
 		}
 		if k == "close" && len(openIdx) == 0 {
+			k = "connect"
+		}
+		if k == "hbold" && len(superseded) == 0 {
 			k = "connect"
 		}
 		var hbable []int
@@ -120,32 +127,33 @@ func genCase(t *rapid.T) Case {
 				op.Mode = "good" // the first event of a client registers it (first-connection handshake)
 				created[op.Client] = true
 			}
-			conns = append(conns, gconn{client: op.Client, open: true, good: op.Mode == "good"})
+			conns = append(conns, gconn{client: op.Client, node: op.Node, open: true, good: op.Mode == "good"})
 			if op.Mode == "good" {
 				newest[op.Client] = len(conns) - 1
 			}
 			c.Ops = append(c.Ops, op)
 		case "hb":
 			c.Ops = append(c.Ops, Op{Kind: "hb", Client: hbable[rapid.IntRange(0, len(hbable)-1).Draw(t, "hbClient")]})
+		case "hbold":
+			// a late heartbeat on a superseded connection that its node still believes in
+			c.Ops = append(c.Ops, Op{Kind: "hbold", Conn: superseded[rapid.IntRange(0, len(superseded)-1).Draw(t, "oldConn")]})
 		case "close":
 			j := openIdx[rapid.IntRange(0, len(openIdx)-1).Draw(t, "closeConn")]
 			// prefer closing a superseded connection (the old node noticing late) half of the time
-			if rapid.Bool().Draw(t, "preferOld") {
-				for _, cand := range openIdx {
-					g := conns[cand]
-					if g.good && newest[g.client] != cand {
-						j = cand
-						break
-					}
-				}
+			if len(superseded) > 0 && rapid.Bool().Draw(t, "preferOld") {
+				j = superseded[0]
 			}
 			conns[j].open = false
 			c.Ops = append(c.Ops, Op{Kind: "close", Conn: j})
 		case "streak":
 			// a session that outlives the registration lifetime: 4-5 pauses of ttl/3, every connected client heartbeating
+			// on its newest connection; superseded connections stay silent, so their records lapse
 			streaks++
 			for j := rapid.IntRange(4, 5).Draw(t, "streakLen"); j > 0; j-- {
 				c.Ops = append(c.Ops, Op{Kind: "tick", HB: append([]int(nil), hbable...), FF: rapid.IntRange(0, 3).Draw(t, "ff") > 0})
+			}
+			if len(superseded) > 0 && rapid.IntRange(0, 3).Draw(t, "lateHB") > 0 {
+				c.Ops = append(c.Ops, Op{Kind: "hbold", Conn: superseded[rapid.IntRange(0, len(superseded)-1).Draw(t, "oldConn")]})
 			}
 		case "tick":
 			ticks++
@@ -153,6 +161,28 @@ func genCase(t *rapid.T) Case {
 			for _, x := range hbable {
 				if rapid.IntRange(0, 3).Draw(t, "tickHB") > 0 {
 					op.HB = append(op.HB, x)
+				}
+			}
+			c.Ops = append(c.Ops, op)
+		case "sweep":
+			// heartbeat-timeout sweep on one node: everything on it that is not kept active is closed by the node
+			op := Op{Kind: "sweep", Node: rapid.IntRange(0, c.Nodes-1).Draw(t, "sweepNode")}
+			for _, x := range hbable {
+				if rapid.IntRange(0, 2).Draw(t, "keep") == 0 {
+					op.HB = append(op.HB, x)
+				}
+			}
+			for j := range conns {
+				if conns[j].open && conns[j].node == op.Node {
+					kept := false
+					for _, x := range op.HB {
+						if newest[x] == j {
+							kept = true
+						}
+					}
+					if !kept {
+						conns[j].open = false // sketch only; the executor observes what the sweep really removed
+					}
 				}
 			}
 			c.Ops = append(c.Ops, op)
@@ -227,6 +257,7 @@ type bclient struct {
 	hsLo         time.Time // start of latest's handshake
 	hbSince      bool      // a heartbeat was sent on latest since its handshake
 	oldCleanup   bool      // an older connection on another node was closed after latest's handshake
+	contested    bool      // a superseded connection heartbeated while latest was not provably kept alive: nothing promised until the next handshake
 }
 
 type backend struct {
@@ -240,6 +271,9 @@ type backend struct {
 	reconnectOtherNode bool
 	oldClosedLate      bool
 	hbSpan             bool
+	lateOldHB          bool // a superseded connection heartbeated while the newest one was kept alive
+	sweptLast          bool // a stale sweep closed a client's last open connection
+	sweptAny           bool
 	resolved, gone     int
 }
 
@@ -295,7 +329,7 @@ func buildBackends(c Case) []*backend {
 
 func (b *backend) close() {
 	for _, c := range b.conns {
-		if c.open {
+		if c.open && c.cl != nil {
 			c.cl.CloseByPeer()
 			c.open = false
 		}
@@ -344,7 +378,7 @@ func (b *backend) connect(op Op, seq int) *failure {
 		if x.latest != nil && x.latest.open && x.latest.node != bc.node {
 			b.reconnectOtherNode = true
 		}
-		x.latest, x.refLo, x.refHi, x.hsLo, x.hbSince, x.oldCleanup = bc, tb, ta, tb, false, false
+		x.latest, x.refLo, x.refHi, x.hsLo, x.hbSince, x.oldCleanup, x.contested = bc, tb, ta, tb, false, false, false
 	}
 	if x == nil {
 		tb := time.Now()
@@ -404,6 +438,11 @@ func (b *backend) closeConn(k int) {
 	}
 	bc := b.conns[k]
 	bc.cl.CloseByPeer()
+	b.noteClosed(bc)
+}
+
+// noteClosed records that bc's owning node closed it.
+func (b *backend) noteClosed(bc *bconn) {
 	bc.open = false
 	x := b.clients[bc.client]
 	if bc.authed && x != nil && x.latest != nil && x.latest != bc && x.latest.open && bc.seq < x.latest.seq {
@@ -414,9 +453,74 @@ func (b *backend) closeConn(k int) {
 	}
 }
 
+// heartbeatOld pushes a late heartbeat on a superseded connection (its node still serves it).
+func (b *backend) heartbeatOld(c Case, k int) {
+	if k >= len(b.conns) {
+		return
+	}
+	bc := b.conns[k]
+	if bc.cl == nil || !bc.open || !bc.authed {
+		return
+	}
+	x := b.clients[bc.client]
+	if x.latest == bc {
+		b.heartbeat(bc.client)
+		return
+	}
+	if err := bc.cl.Push(&packet.TransferPacket{PacketType: packet.Heartbeat}); err != nil {
+		panic("C08 harness: heartbeat push failed: " + err.Error())
+	}
+	after := time.Now()
+	bc.cl.Drain()
+	if x.latest.open && after.Before(x.refLo.Add(c.ttl()-guard)) {
+		b.lateOldHB = true // the newest connection is provably alive: the answer must not move
+	} else {
+		x.contested = true
+	}
+}
+
+// sweep runs the heartbeat-timeout sweep of SessionManager.cleanupStaleConnections on one node with a
+// 5 ms timeout, after the kept clients heartbeated; which connections it closed is observed, not predicted.
+func (b *backend) sweep(node int, keep []int) {
+	for _, x := range keep {
+		if cx := b.clients[x]; cx != nil && cx.latest != nil && cx.latest.open {
+			b.heartbeat(x)
+		}
+	}
+	srv := b.nodes[node]
+	srv.SM.GetClientRegistry().CleanupStale(5*time.Millisecond, func(connID string, clientID int64, authenticated bool) error {
+		return srv.SM.CloseConnection(connID)
+	})
+	for _, bc := range b.conns {
+		if bc.cl == nil || !bc.open || bc.node != node {
+			continue
+		}
+		if _, still := srv.SM.GetConnection(bc.cl.ConnID); still {
+			continue
+		}
+		// closed by the node; finish the transport like the adapter would
+		bc.cl.Near.Close()
+		bc.cl.Far.Close()
+		bc.cl.SP.Close()
+		b.noteClosed(bc)
+		b.sweptAny = true
+		if bc.authed {
+			last := true
+			for _, o := range b.conns {
+				if o.cl != nil && o.client == bc.client && o.open && o.authed {
+					last = false
+				}
+			}
+			if last {
+				b.sweptLast = true
+			}
+		}
+	}
+}
+
 func (b *backend) describe(connID string) string {
 	for _, c := range b.conns {
-		if c.cl.ConnID == connID {
+		if c.cl != nil && c.cl.ConnID == connID {
 			switch {
 			case !c.open:
 				return "closed-conn"
@@ -440,7 +544,7 @@ func (b *backend) judge(c Case, step string) *failure {
 		}
 		var openAuthed []*bconn
 		for _, bc := range b.conns {
-			if bc.client == xi && bc.open && bc.authed {
+			if bc.cl != nil && bc.client == xi && bc.open && bc.authed {
 				openAuthed = append(openAuthed, bc)
 			}
 		}
@@ -459,7 +563,7 @@ func (b *backend) judge(c Case, step string) *failure {
 						fmt.Sprintf("%s = (%s,%s) although the client has no open authenticated control connection", where, node, conn)}
 				}
 				b.gone++
-			case x.latest.open:
+			case x.latest.open && !x.contested:
 				fresh := la.Before(x.refLo.Add(ttl - guard))
 				stale := lb.After(x.refHi.Add(ttl + guard))
 				want := x.latest
@@ -502,8 +606,9 @@ func (b *backend) judge(c Case, step string) *failure {
 					vkit.Skipped(1)
 				}
 			default:
-				// the newest connection is closed while a superseded one is still open on its node: the client is
-				// not keeping anything alive; either answer is accepted, but a resolved answer must name an open connection
+				// the newest connection is closed while a superseded one is still open on its node (the client is not
+				// keeping anything alive), or a superseded connection heartbeated while the newest one had not been kept
+				// alive: either answer is accepted, but a resolved answer must name an open connection of the client
 				if err == nil {
 					ok := false
 					for _, bc := range openAuthed {
@@ -513,7 +618,7 @@ func (b *backend) judge(c Case, step string) *failure {
 					}
 					if !ok {
 						return &failure{fmt.Sprintf("C08/wrong-location/%s/%s", b.name, b.describe(conn)),
-							fmt.Sprintf("%s = (%s,%s): newest connection closed, answer names no open connection of the client", where, node, conn)}
+							fmt.Sprintf("%s = (%s,%s): answer names no open authenticated connection of the client", where, node, conn)}
 					}
 				}
 			}
@@ -563,10 +668,23 @@ func runCase(c Case) *result {
 					b.heartbeat(op.Client)
 				}
 			}
+		case "hbold":
+			for _, b := range bs {
+				if !b.dead {
+					b.heartbeatOld(c, op.Conn)
+				}
+			}
 		case "close":
 			for _, b := range bs {
 				if !b.dead {
 					b.closeConn(op.Conn)
+				}
+			}
+		case "sweep":
+			time.Sleep(6 * time.Millisecond)
+			for _, b := range bs {
+				if !b.dead && op.Node < len(b.nodes) {
+					b.sweep(op.Node, op.HB)
 				}
 			}
 		case "tick":
@@ -626,7 +744,16 @@ func check(t vkit.TB, c Case) {
 		case b.oldClosedLate:
 			class = "same-node-relogin-then-old-close"
 		}
-		nt := (b.reconnectOtherNode && b.oldClosedLate) || b.hbSpan
+		if b.lateOldHB {
+			vkit.Class("feat:late-heartbeat-on-superseded-conn/" + b.name)
+		}
+		if b.sweptAny {
+			vkit.Class("feat:stale-sweep-closed-conn/" + b.name)
+		}
+		if b.sweptLast {
+			vkit.Class("feat:stale-sweep-closed-last-conn/" + b.name)
+		}
+		nt := (b.reconnectOtherNode && b.oldClosedLate) || b.hbSpan || b.lateOldHB || b.sweptLast
 		vkit.Case(class+"/"+b.name, nt, b.name+"#"+sig)
 		vkit.AddExtra("lookups_resolved_fresh", int64(b.resolved))
 		vkit.AddExtra("lookups_not_connected", int64(b.gone))
@@ -676,6 +803,12 @@ func TestScenarios(t *testing.T) {
 		// registration lifetime shorter than the session, kept alive by heartbeats
 		{Nodes: 3, TTLms: shortTTLms, Ops: []Op{{Kind: "connect", Client: 0, Node: 2, Mode: "good"}, {Kind: "tick", HB: []int{0}, FF: true}, {Kind: "tick", HB: []int{0}, FF: true},
 			{Kind: "tick", HB: []int{0}, FF: true}, {Kind: "tick", HB: []int{0}, FF: true}, {Kind: "tick", HB: []int{0}, FF: false}, {Kind: "close", Conn: 0}}},
+		// the old connection's record lapses on node 1 while the client lives on node 2; then a late heartbeat arrives on the old connection
+		{Nodes: 2, TTLms: shortTTLms, Ops: []Op{{Kind: "connect", Client: 0, Node: 0, Mode: "good"}, {Kind: "connect", Client: 0, Node: 1, Mode: "good"},
+			{Kind: "tick", HB: []int{0}, FF: true}, {Kind: "tick", HB: []int{0}, FF: true}, {Kind: "tick", HB: []int{0}, FF: true}, {Kind: "tick", HB: []int{0}, FF: true}, {Kind: "tick", HB: []int{0}, FF: true},
+			{Kind: "hbold", Conn: 0}, {Kind: "tick", HB: []int{0}, FF: true}, {Kind: "close", Conn: 0}, {Kind: "close", Conn: 1}}},
+		// the client's only connection dies silently and is closed by the heartbeat-timeout sweep
+		{Nodes: 2, TTLms: 30000, Ops: []Op{{Kind: "connect", Client: 0, Node: 0, Mode: "good"}, {Kind: "connect", Client: 1, Node: 0, Mode: "good"}, {Kind: "sweep", Node: 0, HB: []int{1}}, {Kind: "sweep", Node: 1}, {Kind: "sweep", Node: 0}}},
 		// default lifetime (ttl argument 0)
 		{Nodes: 2, TTLms: 0, Ops: []Op{{Kind: "connect", Client: 1, Node: 1, Mode: "good"}, {Kind: "connect", Client: 1, Node: 1, Mode: "bad-secret"}, {Kind: "connect", Client: 1, Node: 0, Mode: "tunnel-type"}, {Kind: "close", Conn: 0}}},
 	} {
